@@ -26,11 +26,11 @@ theorem toc_readback_api_adjusted (trailer : Dict) (os : Objects) (cat pid : Obj
     (htarget : ∀ e ∈ BT.preL 1 (adjL (forestOfOps ops)), e.2.2 ∈ PT.leavesL ks)
     (hscalar : ∀ e ∈ BT.preL 1 (adjL (forestOfOps ops)), ∀ c ∈ e.2.1, IsScalar c)
     (hdistinct : ((BT.preL 1 (adjL (forestOfOps ops))).map (fun e => e.2.1)).Nodup)
-    (fuelA fuelB fuelR : Nat) (hfA : BT.sizeL (forestOfOps ops) ≤ fuelA)
-    (hfB : BT.sizeL (adjL (forestOfOps ops)) ≤ fuelB) (hfR : BT.sizeL (adjL (forestOfOps ops)) ≤ fuelR) :
+    (fuelA fuelB : Nat) (hfA : BT.sizeL (forestOfOps ops) ≤ fuelA)
+    (hfB : BT.sizeL (adjL (forestOfOps ops)) ≤ fuelB) :
     ∃ s' b, adjustZeroPages fuelA (addAll BmState.empty ops) = some s' ∧
       buildOutline fuelB s' maxId = some (some b) ∧
-      getToc fuelR trailer (setOutlines (installObjs os b.objs) cat b.root) =
+      getToc trailer (setOutlines (installObjs os b.objs) cat b.root) =
         .ok ((BT.preL 1 (adjL (forestOfOps ops))).map
           (fun e => { level := e.1, title := e.2.1, page := pageIndex (PT.leavesL ks) e.2.2 + 1 })) 0 := by
   obtain ⟨s', hrun, _, _, hrep, _⟩ := adjust_spec ops hc fuelA hfA
@@ -39,7 +39,7 @@ theorem toc_readback_api_adjusted (trailer : Dict) (os : Objects) (cat pid : Obj
     | nil => exact absurd h hne
     | cons _ _ => simp [adjL]
   obtain ⟨b, hb, htoc⟩ := toc_readback_rep trailer os cat pid catd ks maxId s' _ hrep hroot hcatd hpages hkids hemb
-    hnodup hdepth hold hnd hnn hne' htarget hscalar hdistinct fuelB fuelR hfB hfR
+    hnodup hdepth hold hnd hnn hne' htarget hscalar hdistinct fuelB hfB
   exact ⟨s', b, hrun, hb, htoc⟩
 
 end Lopdf.C17
